@@ -509,7 +509,7 @@ class JointNormalDistribution(Distribution):
     @classmethod
     def from_dict(cls, d: Mapping[str, Any]):
         return cls(
-            names=d['names'],
+            names=tuple(d['names']),
             level=d['level'],
             mean=Matrix.deserialize(d['mean']),
             variance=Matrix.deserialize(d['variance']),
